@@ -1482,7 +1482,7 @@ static void vi(void)
 		int oleft = xleft;
 		int orow = xrow;
 		char *opath = ex_path();	/* do not dereference; to detect buffer changes */
-		int mv, n, ru;
+		int mv, n, ru, wcol;
 		term_cmd(&n);
 		vi_arg2 = 0;
 		vi_ybuf = vi_yankbuf();
@@ -1795,10 +1795,11 @@ static void vi(void)
 		vi_wfix();
 		if (mod)
 			xcol = vi_off2col(xb, xrow, xoff);
-		if (xcol >= xleft + xcols)
-			xleft = xcol - xcols / 2;
-		if (xcol < xleft)
-			xleft = xcol < xcols ? 0 : xcol - xcols / 2;
+		wcol = vi_off2col(xb, xrow, xoff);	/* the cursor's own column steers the window */
+		if (wcol >= xleft + xcols)
+			xleft = wcol - xcols / 2;
+		if (wcol < xleft)
+			xleft = wcol < xcols ? 0 : wcol - xcols / 2;
 		vi_wait();
 		term_record();
 		ru = (xru & 1) || ((xru & 2) && w_cnt > 1) || ((xru & 4) && opath != ex_path());
